@@ -9,6 +9,7 @@ HEADLINE = ["c01_pairs_checked", "c01_consumer_steps", "c01_consumer_steps_feede
 def plan(tier, seed, scale):
     return {"n_cases": sizes(tier, scale, 2400, 60000), "variants": 4,
             "profiles": ["core", "flat", "deep", "events", "par", "big", "chain", "lazy"],
+            "remote_cases": int((32 if tier == "quick" else 1600) * scale),
             "timeout_s": 600 if tier == "quick" else 7200}
 
 
